@@ -65,6 +65,23 @@ def check_list(points, tol, slack=0, as_tuples=False):
     if not idx or idx[0] != 0 or idx[-1] != len(original) - 1:
         out.append(("ends", f"{desc} left indices {idx}: first and last vertex must survive"))
         return out, deleted
+    # the same path with ONE object per distinct location (a path closed with
+    # path.append(path[0]), a shared node table): the same positions must go, by position
+    if len(set(points)) < len(points) and not as_tuples:
+        table = {}
+        shared = [table.setdefault(tuple(p), list(p)) for p in points]
+        try:
+            with core.watchdog(5.0):
+                plot_utils.supersample(shared, tol)
+            left_over = [tuple(v) for v in shared]
+        except Exception as exc:            # pylint: disable=broad-except
+            left_over = f"raised {type(exc).__name__}: {exc}"
+        except core.CaseTimeout:
+            left_over = "no return within 5 s"
+        if left_over != [tuple(points[i]) for i in idx]:
+            out.append(("shared_objects", f"{desc}: with equal vertices held in one shared object "
+                        f"the result is {left_over!r}; with separate objects it keeps indices "
+                        f"{idx}"))
     tol2 = F(tol) * F(tol) * (1 + F(slack))
     for left, right in zip(idx, idx[1:]):
         for k in range(left + 1, right):
